@@ -119,7 +119,10 @@ impl<'a> LspServer<'a> {
                     }
                     self.handle_request(req);
                 }
-                lsp_server::Message::Response(_) => todo!(),
+                lsp_server::Message::Response(_) => {
+                    // This server sends no requests, so there is nothing
+                    // to match a response with. Ignore it.
+                }
                 lsp_server::Message::Notification(notification) => {
                     self.handle_notification(&notification);
                 }
